@@ -1,4 +1,5 @@
 import XdistModel.Driver.Sched
+import XdistModel.Driver.Worker
 open Xdist.Driver
 
 def main (args : List String) : IO UInt32 := do
@@ -6,4 +7,5 @@ def main (args : List String) : IO UInt32 := do
   let stdout ← IO.getStdout
   match args with
   | ["sched"] => loop stdin stdout ({} : Sched.St) Sched.handle; return 0
+  | ["worker"] => loop stdin stdout ({} : Xdist.Worker.State) Worker.handle; return 0
   | _ => IO.eprintln "usage: driver <component>"; return 2
